@@ -642,7 +642,14 @@ def oracle(case, impl):
             if any(q != (case['seq0'] if i == self_id else 0) for i, q in loc):
                 return 'a new instance starts with a local vector that is not its own sequence number alone'
     unannounced = False
+    # `mode`: the protocol state as the STATEMENT fixes it, where it does (None = the implementation's word is taken):
+    # a timer expiry ends the period (suppression or not), so the instance is steady afterwards whatever it says of
+    # itself; in the steady state an accepted vector that carries a LOWER number than the local one for some node is
+    # outdated and opens a suppression period.  (Whether a vector that merely lacks entries opens one is left to
+    # the implementation: the statement does not say when a suppression period begins.)
+    mode = None
     for k, rec in enumerate(impl['trace']):
+        state_before = mode if mode is not None else rec['state_before']
         before = dict((a, b) for a, b in rec['local_before'])
         after = dict((a, b) for a, b in rec['local'])
         if rec.get('emit_off_prefix'):
@@ -684,12 +691,18 @@ def oracle(case, impl):
             if rec['emitted']:
                 return f'event {k}: sync Interest emitted while handling a received vector'
             if accepted:
-                if rec['state_before'] == 'SyncSteady' and rec['state'] == 'SyncSuppression':
+                outdated = any(i in before and q < before[i] for i, q in vec.items())
+                if state_before == 'SyncSteady' and (rec['state'] == 'SyncSuppression' or outdated):
                     heard = [vec]
-                elif rec['state_before'] == 'SyncSuppression' and heard is not None:
+                    mode = 'SyncSuppression'
+                elif state_before == 'SyncSuppression' and heard is not None:
                     heard.append(vec)
+                    mode = 'SyncSuppression'
+                else:
+                    mode = None
         elif rec['ev'] == 'p':
             heard = None
+            mode = None
             if rec['self_seq'] != rec['self_seq_before'] + 1:
                 return f'event {k}: publish did not increase the sequence number by one'
             if after.get(self_id) != rec['self_seq']:
@@ -709,6 +722,7 @@ def oracle(case, impl):
             if rec['missing']:
                 return f'event {k}: missing-data callback fired without a received vector'
         elif rec['ev'] in ('start', 'stop', 'x'):
+            mode = None
             exp = dict(before)
             if rec['ev'] == 'start' and rec['self_seq'] >= 0:
                 exp[self_id] = rec['self_seq_before']
@@ -732,10 +746,11 @@ def oracle(case, impl):
                 return f'event {k}: stopping and starting again changed the local vector'
             if rec['missing']:
                 return f'event {k}: missing-data callback fired without a received vector'
+            mode = None
             if rec['state'] != rec['state_before']:
                 heard = None
         elif rec['ev'] == 't':
-            if rec['state_before'] == 'SyncSuppression' and heard is not None:
+            if state_before == 'SyncSuppression' and heard is not None:
                 merged = {}
                 for v in heard:
                     for i, q in v.items():
@@ -748,6 +763,7 @@ def oracle(case, impl):
                 if v != rec['local']:
                     return f'event {k}: emitted vector is not the full local vector'
             heard = None
+            mode = 'SyncSteady' if rec.get('running', True) else None
     if impl['loop_errors']:
         return f'background task error: {impl["loop_errors"][:2]}'
     return None
